@@ -70,6 +70,12 @@ func main() {
 			}
 		}
 		workerMain(os.Args[2], os.Args[3], seed, idx, os.Args[6])
+	case "poolhist":
+		if len(os.Args) < 5 {
+			usage()
+		}
+		seed, _ := strconv.ParseUint(os.Args[2], 10, 64)
+		poolHistMain(seed, os.Args[3], os.Args[4])
 	case "fnworker":
 		if len(os.Args) < 8 {
 			usage()
